@@ -67,8 +67,15 @@ CLAIMED['C18'] = dict(
          'every truncation raises the truncation error; streams of <= 3 frames keep order and exact positions; frames with symbolic magic / ALL 2^32 length values / symbolic checksum and '
          'payload are judged against the reference frame rule including "never reads beyond the frame" (exposed the signed length field and the headers layout, both fixed).',
     note='SHA-256 uninterpreted (checksum rule judged over the same function symbol); inet_ntop/pton uninterpreted inverse pair; command-field corruption outside the claim; msg_version for nVersion >= 70001.')
+CLAIMED['C06'] = dict(
+    text=_T + 'product execution of the library interpreter and an independent reference interpreter (after Bitcoin Core) on the same symbolic state: every opcode byte value '
+         '(solver-forked) from symbolic stacks of depth 0..6, numeric operands of all length combinations in {0,1,2,4,5}, executed/unexecuted branches, flag values, '
+         'control-flow skeletons, the four limits at their exact bounds, signature opcodes with oracle-predicate signatures, and VerifyScript under the admissible flag subsets incl. P2SH; '
+         'obligation: both fail, or both succeed with equal final stacks / equal accept-reject (exposed the b\'\\x00\' false value and the unchecked data-push stack limit, both fixed).',
+    note='programs are bounded (1 symbolic opcode + context in quick; 2 symbolic bytes in thorough); ECDSA is an oracle predicate; hash opcodes uninterpreted on both sides; '
+         'RawSignatureHash inside CHECKSIG is shared with the reference (its exactness is C03).')
 _UC = 'check not built yet in this round (engine exists; harness pending) - will be claimed or declared not applicable with its real reason'
-for _i in ['C05','C06','C07','C09','C12','C14','C19']:
+for _i in ['C05','C07','C09','C12','C14','C19']:
     NA[_i] = _UC
 NA['C13'] = ('key derivation, signing, verification and point validity are computed by OpenSSL through ctypes: there is no Python or IR to execute '
              'symbolically, and the reference (secp256k1 group law, 256-bit modular inversion) is non-linear 256-bit arithmetic out of reach of z3/cvc5')
